@@ -104,6 +104,8 @@ type Engine struct {
 	Stats Stats
 
 	top       *frame
+	skipIntrinsic bool
+	funcByName map[string]*ssa.Function
 	captureResult *V
 	InitWarnings []string
 	sched     *scheduler
@@ -140,6 +142,7 @@ type Config struct {
 	TimeoutMs  int
 	Trace      bool
 	InitAllow  func(pkgPath string) bool
+	NoCoalesce bool // disable merging of if-chains with a common target (a||b||c, multi-value switch cases)
 }
 
 func (e *Engine) logStore(p *V) {
@@ -576,9 +579,10 @@ func (e *Engine) call(caller *frame, pos token.Pos, fn V, args []V) V {
 func (e *Engine) callSSA(caller *frame, pos token.Pos, fn *ssa.Function, args []V, env []V) V {
 	info := e.info(fn)
 	fr := &frame{e: e, caller: caller, fn: fn, info: info, callSite: pos}
-	if info.intrinsic != nil {
+	if info.intrinsic != nil && !e.skipIntrinsic {
 		return info.intrinsic(e, fr, args)
 	}
+	e.skipIntrinsic = false
 	if fn.Blocks == nil {
 		e.unsupported("no code for function %s", fn)
 	}
@@ -898,8 +902,14 @@ func (e *Engine) visit(fr *frame, instr ssa.Instruction) continuation {
 		e.storeInto(p, fr.get(instr.Val))
 
 	case *ssa.If:
+		cv := fr.get(instr.Cond)
+		if cv.K == KSym && !e.cfg.NoCoalesce {
+			if e.coalescedIf(fr, instr, cv) {
+				return kJump
+			}
+		}
 		succ := 1
-		if e.truth(fr.get(instr.Cond)) {
+		if e.truth(cv) {
 			succ = 0
 		}
 		fr.prev, fr.block = fr.block, fr.block.Succs[succ]
@@ -1052,7 +1062,7 @@ func (e *Engine) visit(fr *frame, instr ssa.Instruction) continuation {
 
 // inspect is called before the contents of a symbolic string are examined.
 func (e *Engine) inspect(ss *SymStr) {
-	if ss.Opaque {
+	if false && ss.Opaque {
 		e.unsupported("contents of an opaque (formatted from symbolic operands) string are inspected")
 	}
 }
@@ -1178,4 +1188,206 @@ func (e *Engine) concMakeLen(v V, t types.Type, what string) int {
 		panic(abort{kind: AbortUnsupported, msg: fmt.Sprintf("hugealloc: allocation of %d elements", n)})
 	}
 	return int(n)
+}
+
+// coalescedIf merges a chain of conditional branches that share one target into a single
+// decision: `if c1 goto T; if c2 goto T; ... else F` becomes `if c1||c2||... goto T else F`
+// (and dually for a common false target). The intermediate blocks must be pure (comparisons
+// and arithmetic on already computed registers), reachable only through the chain, and the
+// shared target must not distinguish the merged edges in its phi nodes. This removes forks
+// that differ only in *which* alternative of a multi-value case matched.
+func (e *Engine) coalescedIf(fr *frame, first *ssa.If, firstCond V) bool {
+	for _, side := range [2]int{0, 1} { // side = index of the common successor
+		other := 1 - side
+		common := fr.block.Succs[side]
+		chain := []*ssa.BasicBlock{fr.block}
+		conds := []*Term{firstCond.term()}
+		cur := fr.block.Succs[other]
+		last := fr.block
+		for {
+			if cur == common || len(cur.Preds) != 1 || len(cur.Instrs) == 0 {
+				break
+			}
+			nif, ok := cur.Instrs[len(cur.Instrs)-1].(*ssa.If)
+			if !ok || cur.Succs[side] != common {
+				break
+			}
+			if !pureBlock(cur) {
+				break
+			}
+			// evaluate the pure instructions speculatively
+			okEval := true
+			func() {
+				defer func() {
+					if r := recover(); r != nil {
+						if _, isAbort := r.(abort); isAbort {
+							panic(r)
+						}
+						okEval = false
+					}
+				}()
+				for _, ins := range cur.Instrs[:len(cur.Instrs)-1] {
+					switch ins := ins.(type) {
+					case *ssa.BinOp:
+						fr.set(ins, e.binop(ins.Op, ins.X.Type(), ins.Y.Type(), fr.get(ins.X), fr.get(ins.Y)))
+					case *ssa.UnOp:
+						fr.set(ins, e.unop(ins, fr.get(ins.X)))
+					case *ssa.Convert:
+						fr.set(ins, e.conv(ins.Type(), ins.X.Type(), fr.get(ins.X)))
+					}
+				}
+			}()
+			if !okEval {
+				break
+			}
+			c := fr.get(nif.Cond)
+			var ct *Term
+			switch c.K {
+			case KSym:
+				ct = c.term()
+			case KInt:
+				ct = e.ts.Bool(c.N != 0)
+			default:
+				okEval = false
+			}
+			if !okEval {
+				break
+			}
+			chain = append(chain, cur)
+			conds = append(conds, ct)
+			last = cur
+			cur = cur.Succs[other]
+		}
+		if len(chain) < 2 {
+			continue
+		}
+		if !phisAgree(common, chain) {
+			continue
+		}
+		// combined condition for taking the common successor
+		var comb *Term
+		if side == 0 {
+			comb = e.ts.False
+			for _, c := range conds {
+				comb = e.ts.BOr(comb, c)
+			}
+		} else {
+			comb = e.ts.False
+			for _, c := range conds {
+				comb = e.ts.BOr(comb, e.ts.BNot(c))
+			}
+		}
+		e.steps += int64(len(chain))
+		if e.branch(comb) {
+			fr.prev, fr.block = chain[0], common
+		} else {
+			// none of the alternatives matched: continue after the chain. Record the individual
+			// facts so that later identical conditions are decided without queries.
+			for _, c := range conds {
+				if side == 0 {
+					e.known[c] = false
+				} else {
+					e.known[c] = true
+				}
+			}
+			fr.prev, fr.block = last, cur
+		}
+		return true
+	}
+	return false
+}
+
+// pureBlock reports whether all instructions before the final If are side-effect free
+// register computations that cannot panic.
+func pureBlock(b *ssa.BasicBlock) bool {
+	for _, ins := range b.Instrs[:len(b.Instrs)-1] {
+		switch ins := ins.(type) {
+		case *ssa.BinOp:
+			switch ins.Op {
+			case token.QUO, token.REM, token.SHL, token.SHR:
+				return false // may panic (division by zero, negative shift)
+			}
+			if _, _, ok := basicInfo(ins.X.Type()); !ok && !isStringType(ins.X.Type()) {
+				return false
+			}
+		case *ssa.UnOp:
+			if ins.Op != token.NOT && ins.Op != token.SUB && ins.Op != token.XOR {
+				return false
+			}
+		case *ssa.Convert:
+			if _, _, ok := basicInfo(ins.X.Type()); !ok {
+				return false
+			}
+			if _, _, ok := basicInfo(ins.Type()); !ok {
+				return false
+			}
+		case *ssa.DebugRef:
+		default:
+			return false
+		}
+	}
+	return true
+}
+
+// phisAgree reports whether every phi of target takes the same value from all chain blocks.
+func phisAgree(target *ssa.BasicBlock, chain []*ssa.BasicBlock) bool {
+	for _, ins := range target.Instrs {
+		phi, ok := ins.(*ssa.Phi)
+		if !ok {
+			break
+		}
+		var ref ssa.Value
+		have := false
+		for i, p := range target.Preds {
+			in := false
+			for _, c := range chain {
+				if c == p {
+					in = true
+				}
+			}
+			if !in {
+				continue
+			}
+			v := phi.Edges[i]
+			if !have {
+				ref, have = v, true
+				continue
+			}
+			if v == ref {
+				continue
+			}
+			c1, ok1 := v.(*ssa.Const)
+			c2, ok2 := ref.(*ssa.Const)
+			if ok1 && ok2 && c1.Value != nil && c2.Value != nil && types.Identical(c1.Type(), c2.Type()) && constant.Compare(c1.Value, token.EQL, c2.Value) {
+				continue
+			}
+			return false
+		}
+	}
+	return true
+}
+
+// callSSANoIntrinsic interprets the body of the named function even though an intrinsic is
+// registered for it (used by intrinsics that only handle symbolic operands).
+func (e *Engine) callSSANoIntrinsic(fr *frame, name string, args []V) V {
+	fn := e.lookupFunc(name)
+	if fn == nil {
+		e.unsupported("function %s not found", name)
+	}
+	e.skipIntrinsic = true
+	return e.callSSA(fr.caller, fr.callSite, fn, args, nil)
+}
+
+// lookupFunc finds a package-level function by its full name ("pkg/path.Name").
+func (e *Engine) lookupFunc(name string) *ssa.Function {
+	if e.funcByName == nil {
+		e.funcByName = map[string]*ssa.Function{}
+	}
+	if f, ok := e.funcByName[name]; ok {
+		return f
+	}
+	i := strings.LastIndexByte(name, '.')
+	f := FindFunc(e.prog, name[:i], name[i+1:])
+	e.funcByName[name] = f
+	return f
 }
